@@ -69,7 +69,7 @@ func TestC14(t *testing.T) {
 	r := newRunner(t, "C14")
 	e := eco.ByName("alpine")
 	// the rows of the repository's own apk sample file that fall in the domain validate the model
-	if f, err := os.Open("/repo/pkg/ecosystem/alpine/testdata/compare.txt"); err == nil {
+	if f, err := os.Open(repoRoot() + "/pkg/ecosystem/alpine/testdata/compare.txt"); err == nil {
 		sc := bufio.NewScanner(f)
 		n, bad := 0, 0
 		for sc.Scan() {
